@@ -27,6 +27,7 @@ fn walk(text: &str, cm: &CodeMap, v: &Value, off: usize, cs: &mut Vec<String>, k
             let items2: Vec<usize> = a.as_slice().iter_mapped(cm, off).map(|m| m.offset).collect();
             out.oracle(items.iter().map(|m| m.offset).collect::<Vec<_>>() == items2, "Vec and slice iter_mapped agree", || String::new());
             cs.push(format!("A{}:{}", off, items.iter().map(|m| m.offset.to_string()).collect::<Vec<_>>().join(".")));
+            { let laws = iter_laws(|| a.iter_mapped(cm, off).map(|m| m.offset)); out.oracle(laws.is_ok(), "array iter_mapped obeys the Iterator laws", || laws.clone().unwrap_err()); }
             for (m, x) in items.iter().zip(a.iter()) {
                 out.oracle(std::ptr::eq(m.value, x) && text_is_value(text, cm, m.offset, x), "array item offset: span text is the item", || format!("array at {} item offset {}", off, m.offset));
             }
@@ -35,6 +36,7 @@ fn walk(text: &str, cm: &CodeMap, v: &Value, off: usize, cs: &mut Vec<String>, k
         Value::Object(o) => {
             let es: Vec<_> = o.iter_mapped(cm, off).collect();
             cs.push(format!("O{}:{}", off, es.iter().map(|e| format!("{}-{}-{}", e.offset, e.value.key.offset, e.value.value.offset)).collect::<Vec<_>>().join(";")));
+            { let laws = iter_laws(|| o.iter_mapped(cm, off).map(|e| (e.offset, e.value.key.offset, e.value.value.offset))); out.oracle(laws.is_ok(), "object iter_mapped obeys the Iterator laws", || laws.clone().unwrap_err()); }
             for e in &es {
                 let key_ok = span_text(text, cm, e.value.key.offset).and_then(|t| Value::parse_str(t).ok()).map_or(false, |(w, _)| w.as_str() == Some(e.value.key.value.as_str()));
                 let entry_ok = span_text(text, cm, e.offset).map_or(false, |t| t.starts_with('"') && Value::parse_str(&format!("{{{}}}", t)).map_or(false, |(w, _)| w.as_object().map_or(false, |ob| ob.len() == 1 && ob.entries()[0].key == *e.value.key.value && ob.entries()[0].value == *e.value.value.value)));
@@ -45,6 +47,9 @@ fn walk(text: &str, cm: &CodeMap, v: &Value, off: usize, cs: &mut Vec<String>, k
             keys.push("zz".into());
             for k in &keys {
                 let q: Vec<_> = o.get_mapped_entries_with_index(cm, off, k.as_str()).collect();
+                { let laws = iter_laws(|| o.get_mapped_entries_with_index(cm, off, k.as_str()).map(|(i, e)| (i, e.offset)))
+                    .and_then(|_| iter_laws(|| o.get_mapped(cm, off, k.as_str()).map(|m| m.offset)));
+                  out.oracle(laws.is_ok(), "keyed mapped lookups obey the Iterator laws", || laws.clone().unwrap_err()); }
                 ks.push(format!("K{}:{}:{}", off, cps(k), q.iter().map(|(i, e)| format!("{}-{}-{}-{}", i, e.offset, e.value.key.offset, e.value.value.offset)).collect::<Vec<_>>().join(";")));
                 // the other keyed variants are projections of this one
                 let a1: Vec<_> = o.get_mapped_entries(cm, off, k.as_str()).map(|e| (e.offset, e.value.key.offset, e.value.value.offset)).collect();
@@ -127,6 +132,14 @@ pub fn exec(rest: &str, out: &mut Out) -> (String, bool) {
             let n = v.traverse().count();
             let tr: Vec<FragmentRef> = v.traverse().map(|(_, f)| f).collect();
             out.oracle(v.traverse().enumerate().all(|(i, (j, _))| i == j), "traverse numbers fragments 0,1,2,…", || String::new());
+            { let laws = iter_laws(|| v.traverse().map(|(i, f)| (i, frag_code(&f)))); out.oracle(laws.is_ok(), "traverse obeys the Iterator laws", || laws.clone().unwrap_err()); }
+            for (_, f) in v.traverse().take(40) {
+                let laws = iter_laws(|| f.sub_fragments().map(|g| frag_code(&g)));
+                let fw: Vec<_> = f.sub_fragments().map(|g| frag_code(&g)).collect();
+                let mut bw: Vec<_> = f.sub_fragments().rev().map(|g| frag_code(&g)).collect();
+                bw.reverse();
+                out.oracle(laws.is_ok() && fw == bw, "sub_fragments obeys the Iterator laws and reverses consistently", || laws.clone().err().unwrap_or_default());
+            }
             let mut fr = Vec::new();
             for i in 0..n + 3 {
                 match v.get_fragment(i) {
@@ -203,6 +216,21 @@ pub fn gen(out: &mut Out, thorough: bool) {
     out.count_n("small_token_documents", lines.len() as u64);
     for s in lines.drain(..) { l(s, out); }
     out.exhaustive.push(format!("every VALID document of <= {} tokens over {:?}", if thorough { 6 } else { 5 }, toks));
+    // wide objects (hash-table growth steps) with duplicated keys at the start, in the middle and at
+    // the end, nested one level down as well: every keyed mapped lookup of every key
+    for &nk in (if thorough { &[20usize, 57, 113, 130, 300][..] } else { &[20usize, 113, 130][..] }) {
+        for variant in 0..2 {
+            let mut d = String::from("{");
+            for i in 0..nk {
+                if i > 0 { d.push(','); }
+                let key = if variant == 1 && i % 10 == 3 { format!("k{}", i / 20) } else { format!("k{}", i) };
+                d.push_str(&format!("\"{}\":{}", key, if i % 7 == 0 { "[1,{\"x\":null,\"x\":2}]".to_string() } else { i.to_string() }));
+            }
+            d.push_str(",\"k1\":\"dup\",\"last\":[],\"k1\":2}");
+            l(format!("mapped nav {}", cps(&d)), out);
+            l(format!("mapped nav {}", cps(&format!("[0,{},{{\"w\":{}}}]", d, d))), out);
+        }
+    }
     let n = if thorough { 150000 } else { 3000 };
     for _ in 0..n {
         let doc = { let mut g = crate::parse::DocGen { rng: &mut out.rng, max_depth: 5 }; g.doc() };
